@@ -25,6 +25,13 @@ class Reporter:
         return "Reporter(%r)" % (self.mode if self.mode is not UNKNOWN else "?")
 
 
+class OwnEntries:
+    """Abstract value of a parameter bound (at the call site) to entries drawn from the receiver's own entry list."""
+
+    def __repr__(self):
+        return "OwnEntries"
+
+
 class RaiseSite:
     def __init__(self, fn, node, kind, exc, text, via=()):
         self.fn = fn
@@ -141,7 +148,7 @@ class Ordering:
             l = self.eval_const(fn, test.left, consts)
             r = self.eval_const(fn, test.comparators[0], consts)
             op = test.ops[0]
-            if l is UNKNOWN or r is UNKNOWN or isinstance(l, Reporter) or isinstance(r, Reporter):
+            if l is UNKNOWN or r is UNKNOWN or isinstance(l, (Reporter, OwnEntries)) or isinstance(r, (Reporter, OwnEntries)):
                 return None
             if isinstance(op, (ast.Eq, ast.Is)):
                 return l == r if not isinstance(op, ast.Is) else (l is r or (l == r and isinstance(l, (bool, type(None), str))))
@@ -150,7 +157,7 @@ class Ordering:
             return None
         if isinstance(test, ast.Name) and test.id in consts:
             v = consts[test.id]
-            if v is UNKNOWN or isinstance(v, Reporter):
+            if v is UNKNOWN or isinstance(v, (Reporter, OwnEntries)):
                 return None
             return bool(v)
         return None
@@ -188,6 +195,9 @@ class Ordering:
         for k in sorted(consts):
             v = consts[k]
             if v is UNKNOWN:
+                continue
+            if isinstance(v, OwnEntries):
+                items.append((k, "OwnEntries"))
                 continue
             if isinstance(v, Reporter):
                 items.append((k, "R:%r" % (v.mode if v.mode is not UNKNOWN else "?")))
@@ -523,8 +533,11 @@ class Walk:
                 sub_consts = o.bind_consts(self.fn, t, e, self.consts)
                 # pass reporter values through
                 for p, a in self._bound_args(t, e):
-                    if isinstance(a, ast.Name) and isinstance(self.consts.get(a.id), Reporter):
+                    if isinstance(a, ast.Name) and isinstance(self.consts.get(a.id), (Reporter, OwnEntries)):
                         sub_consts[p] = self.consts[a.id]
+                    elif self._expr_is_own_entries(a) and isinstance(e.func, ast.Attribute) and norm(e.func.value) == (self.fn.self_name or "self"):
+                        # a list of the receiver's own entries handed to a private method of the same object
+                        sub_consts[p] = OwnEntries()
                 w = o.analyse(t, sub_consts, self.depth + 1)
                 via = (t.short,)
                 excs = set()
@@ -657,6 +670,10 @@ class Walk:
                 if isrc is not None and "tierNames" in norm(isrc) and ".index(" in norm(isrc):
                     idx_ok = True
         if not idx_ok:
+            cand = c.args[1] if len(c.args) > 1 else next((k.value for k in c.keywords if k.arg == "tierIndex"), None)
+            if isinstance(cand, ast.Name) and cand.id in self.fn.params and self._callers_pass_saved_index(cand.id):
+                idx_ok = True
+        if not idx_ok:
             return None
         # restore must not report: reportingMode constant not raising
         callee = self.idx.get("Textgrid.addTier")
@@ -686,6 +703,26 @@ class Walk:
                 return None
         return "inside try whose handler (%s) restores the removed tier at its saved index and re-raises" % "/".join(hnames)
 
+    def _callers_pass_saved_index(self, pname: str) -> bool:
+        """Every call of this (private) function passes, for `pname`, a name bound from <x>.tierNames.index(...)."""
+        pi = self.fn.params.index(pname)
+        found = 0
+        for g in self.idx.all_functions():
+            if g is self.fn:
+                continue
+            te = None
+            for call in ast.walk(g.node):
+                if not (isinstance(call, ast.Call) and isinstance(call.func, ast.Attribute) and call.func.attr == self.fn.name):
+                    continue
+                arg = call.args[pi] if pi < len(call.args) else next((k.value for k in call.keywords if k.arg == pname), None)
+                if not isinstance(arg, ast.Name):
+                    return False
+                defs = [n.value for n in ast.walk(g.node) if isinstance(n, ast.Assign) and len(n.targets) == 1 and norm(n.targets[0]) == arg.id]
+                if len(defs) != 1 or "tierNames" not in norm(defs[0]) or ".index(" not in norm(defs[0]):
+                    return False
+                found += 1
+        return found > 0
+
     def provenance_reason(self, site: RaiseSite) -> Optional[str]:
         n = site.node
         if not isinstance(n, ast.Call):
@@ -702,7 +739,7 @@ class Walk:
                 base = it
                 if isinstance(base, ast.Subscript):
                     base = base.value  # matchList[::-1]
-                if isinstance(base, ast.Name):
+                if isinstance(base, ast.Name) and not isinstance(self.consts.get(base.id), OwnEntries):
                     base = self.provenance.get(base.id)
                 if base is not None and self._is_own_entries(base):
                     return "argument is drawn from the receiver's own entries (%s): every such entry is found by index()" % norm(base)[:60]
@@ -713,8 +750,21 @@ class Walk:
             return self._key_provenance(n.args[0])
         return None
 
+    def _expr_is_own_entries(self, a) -> bool:
+        base = a
+        if isinstance(base, ast.Subscript) and isinstance(base.slice, ast.Slice):
+            base = base.value
+        if isinstance(base, ast.Name):
+            if isinstance(self.consts.get(base.id), OwnEntries):
+                return True
+            d = self.provenance.get(base.id)
+            return d is not None and self._is_own_entries(d)
+        return self._is_own_entries(base)
+
     def _is_own_entries(self, e) -> bool:
         s = self.fn.self_name or "self"
+        if isinstance(e, ast.Name) and isinstance(self.consts.get(e.id), OwnEntries):
+            return True
         t = norm(e)
         if t in (s + ".entries", s + "._entries"):
             return True
